@@ -643,6 +643,9 @@ class Parser(object):
         line = line.strip()
         step = self.parse_step(line)
         if step:
+            if self.statement is None:
+                # -- CASE: parse_scenario() and step before Scenario line.
+                return False
             # -- FIRST STEP DETECTED: End collection of description-part.
             self.state = State.STEPS
             self.statement.steps.append(step)
@@ -654,6 +657,10 @@ class Parser(object):
         if self.subaction_detect_taggable_statement(line):
             # -- DETECTED: Next Scenario, ScenarioOutline (or tags)
             return True
+
+        if self.statement is None:
+            # -- CASE: parse_scenario() and text before Scenario line.
+            return False
 
         # -- OTHERWISE: Add description line.
         # pylint: disable=E1103
